@@ -252,11 +252,61 @@ func Lock(m Locker, site string) {
 		return
 	}
 	handOff(t, site)
+	pending := false
 	for !m.TryLock() {
 		active.Contentions++
+		if _, rw := m.(RLocker); rw && !pending {
+			// sync.RWMutex: a waiting writer blocks new readers (this is what
+			// makes a recursive RLock deadlock when a writer arrives in between)
+			pendingAdd(m, 1)
+			pending = true
+		}
 		t.blocked = m
 		handOff(t, site)
 	}
+	if pending {
+		pendingAdd(m, -1)
+	}
+}
+
+// Scheduler state touched by tasks must not live in Go maps: the runtime
+// reports map accesses to the race detector even from //go:norace functions.
+// Small association lists instead.
+type assoc struct {
+	key interface{}
+	n   int
+	ts  []*task
+	o   *onceInfo
+}
+
+var pendingW []assoc
+
+//go:norace
+func find(l []assoc, key interface{}) int {
+	for i := range l {
+		if l[i].key == key {
+			return i
+		}
+	}
+	return -1
+}
+
+//go:norace
+func pendingAdd(m interface{}, d int) {
+	i := find(pendingW, m)
+	if i < 0 {
+		pendingW = append(pendingW, assoc{key: m})
+		i = len(pendingW) - 1
+	}
+	pendingW[i].n += d
+}
+
+//go:norace
+func pendingCount(m interface{}) int {
+	if i := find(pendingW, m); i >= 0 {
+		return pendingW[i].n
+	}
+	return 0
 }
 
 //go:norace
@@ -308,7 +358,7 @@ func RLock(m RLocker, site string) {
 		return
 	}
 	handOff(t, site)
-	for !m.TryRLock() {
+	for pendingCount(m) > 0 || !m.TryRLock() {
 		active.Contentions++
 		t.blocked = m
 		handOff(t, site)
@@ -467,7 +517,6 @@ func (s *Sim) Run() error {
 	}
 	active = s
 	defer endRun()
-	resetSyncSim()
 	startWatchdog()
 
 	if s.policy == PCT {
@@ -540,7 +589,12 @@ func (s *Sim) Run() error {
 }
 
 //go:norace
-func endRun() { active = nil; cur = nil }
+func endRun() {
+	active = nil
+	cur = nil
+	resetSyncSim()
+	pendingW = nil
+}
 
 // InTask reports whether the caller runs as a simulated task.
 //
